@@ -69,6 +69,8 @@ func c06Failing(m *Model) []string {
 		"rdeploy s1 n=2 bad=unhealthy-one",
 		"rdeploy s1 n=1 bad=unhealthy-all",
 		"deploy s3 h=c.example.com p=/ n=2 bad=unhealthy-one",
+		"deploy s3 h=c.example.com p=/ n=2 dup=1 bad=unhealthy-all", // the same target named twice
+		"rdeploy s1 n=2 dup=1 bad=unhealthy-all",
 		// (3) unreadable certificate
 		"deploy s1 h=a.example.com p=/ bad=cert",
 		"deploy s3 h=c.example.com p=/ bad=cert",
@@ -90,6 +92,7 @@ func c06Failing(m *Model) []string {
 			h = "-"
 		}
 		ops = append(ops, fmt.Sprintf("deploy s3 h=%s p=%s n=2", h, s.Paths[0]))
+		ops = append(ops, fmt.Sprintf("deploy s3 h=%s p=%s n=2 dup=1", h, s.Paths[0]))
 		for _, o := range sortedKeys(m.Services) {
 			if o != n {
 				ops = append(ops, fmt.Sprintf("deploy %s h=%s,z.example.com p=%s", o, h, s.Paths[0]))
